@@ -22,7 +22,11 @@ def caseOfJ (c : J) : SyncCase :=
   { composite, cfg := if composite then cfgOfJ (c.getD "cfg") else default,
     dcfg := if composite then default else dcfgOfJ (c.getD "cfg"),
     cache, parent, calls := (c.getArr "calls").map Rec.ofJ,
-    outcome := result.getStr "outcome", after := recordedAfter result, cacheIntact := c.getBool "cacheIntact" }
+    outcome := result.getStr "outcome", after := recordedAfter result, cacheIntact := c.getBool "cacheIntact",
+    parentAfter := match parent with
+      | some p => (c.getArr "storeAfter").find? (fun o => getKind o == getKind p && getAPIVersion o == getAPIVersion p &&
+          getNamespace o == getNamespace p && getName o == getName p)
+      | none => none }
 
 /-- a clause starting with `[F-…]` names the recorded finding whose shape the failure has -/
 def findingOf (clause : String) : String :=
